@@ -5,7 +5,7 @@
             harness materialised and what the real loader did; check = the model's crash image of [target] is the
             one the harness described; prop = the model's image is exactly the old or exactly the new bytes
             (executable form of snapshot_atomic, evaluated on the recorded - possibly mutated - sequence). *)
-From AM Require Export Base.Prelude Model.FsCrash Model.Snapshot Model.Wire.
+From AM Require Export Base.Prelude Model.Nflog Model.FsCrash Model.Wire Model.Snapshot.
 
 Inductive img := IAbsent | IOld | INew | IPrefix (n : nat) | IOther (b : string).
 Inductive ldclass := LOld | LNew | LErr | LOther.
@@ -13,9 +13,29 @@ Global Instance ldclass_eq_dec : EqDecision ldclass. Proof. solve_decision. Defi
 
 Record point := mkPoint { p_k : nat; p_dir : nat; p_keep : list (nat * nat); p_img : img; p_load : ldclass }.
 
+(* ---- record literals as the harness writes them (numbers as Z) ---- *)
+Definition zs (l : list Z) : list N := map Z.to_N l.
+Definition mkR (g i : string) (idx : Z) : wrecv := mkRecv g i (Z.to_N idx).
+Definition mkE (gk : string) (rc : option wrecv) (gh : string) (rs : bool) (ts : option wts) (fi ra : list Z)
+  (da : list (string * option rdv)) : wentry := mkWEntry gk rc gh rs ts (zs fi) (zs ra) da.
+
+Inductive mut := MPrefix (n : nat) | MFlip (pos : nat) (v : Z).
+(* what the real loader made of mutated bytes: an error, the first j records of the unmutated file, or these records *)
+Inductive lres (A : Type) := LdErr | LdPrefix (j : nat) | LdOk (l : list A).
+Arguments LdErr {A}.
+Arguments LdPrefix {A} j.
+Arguments LdOk {A} l.
+
 Inductive case :=
 | COps (target tmp : string) (data : string) (recorded : list fsop)
-| CCrash (store : nat) (target : string) (old : option string) (new : string) (ops : list fsop) (pts : list point).
+| CCrash (store : nat) (target : string) (old : option string) (new : string) (ops : list fsop) (pts : list point)
+(* bytes marshalled by protobuf-go and the records they hold, in file order; exact = the bytes were produced with
+   deterministic (key-sorted) map order from records listed with sorted keys, so Wire.v must re-encode them
+   byte for byte *)
+| CCodecN (bytes : string) (recs : list wmesh) (exact : bool)
+| CCodecS (bytes : string) (recs : list wmeshsil) (exact : bool)
+| CMutN (bytes : string) (l : list (mut * lres wmesh))
+| CMutS (bytes : string) (l : list (mut * lres wmeshsil)).
 
 Fixpoint keep_of (l : list (nat * nat)) (i : nat) : nat :=
   match l with
@@ -23,13 +43,34 @@ Fixpoint keep_of (l : list (nat * nat)) (i : nat) : nat :=
   | (j, n) :: r => if Nat.eqb i j then n else keep_of r i
   end.
 
+Definition old_bytes (old : option string) : list N := match old with Some b => s2b b | None => [] end.
 Definition init_fs (target : string) (old : option string) : fs :=
   match old with Some b => fs_with target (s2b b) | None => fs_empty end.
 
 Definition model_image (target : string) (old : option string) (ops : list fsop) (p : point) : option (list N) :=
   content (recover_after ops (p_k p) (mkChoice (p_dir p) (keep_of (p_keep p))) (init_fs target old)) target.
 
-Definition bytes_eqb (a b : list N) : bool := beq a b.
+Fixpoint bytes_eqb (a b : list N) : bool :=
+  match a, b with
+  | [], [] => true
+  | x :: r, y :: t => (x =? y)%N && bytes_eqb r t
+  | _, _ => false
+  end.
+Definition fsop_eqb (a b : fsop) : bool :=
+  match a, b with
+  | Create x, Create y => String.eqb x y
+  | Write x d, Write y e => String.eqb x y && bytes_eqb d e
+  | Fsync x, Fsync y => String.eqb x y
+  | Close x, Close y => String.eqb x y
+  | Rename x1 x2, Rename y1 y2 => String.eqb x1 y1 && String.eqb x2 y2
+  | _, _ => false
+  end.
+Fixpoint ops_eqb (a b : list fsop) : bool :=
+  match a, b with
+  | [], [] => true
+  | x :: r, y :: t => fsop_eqb x y && ops_eqb r t
+  | _, _ => false
+  end.
 
 Definition img_ok (old : option string) (new : string) (m : option (list N)) (i : img) : bool :=
   match i, m with
@@ -47,11 +88,121 @@ Definition is_old_or_new (old : option string) (new : string) (m : option (list 
   | Some b => match old with Some o => bytes_eqb b (s2b o) | None => false end || bytes_eqb b (s2b new)
   end.
 
+(* ---- comparing decoded content: protobuf maps are compared as maps ---- *)
+Fixpoint alist_get {V} (k : string) (l : list (string * V)) : option V :=
+  match l with [] => None | (k', v) :: r => if String.eqb k' k then Some v else alist_get k r end.
+Definition alist_equiv {V} (eqb : V -> V -> bool) (l1 l2 : list (string * V)) : bool :=
+  Nat.eqb (length l1) (length l2) &&
+  forallb (fun kv => match alist_get (fst kv) l2 with Some v => eqb (snd kv) v | None => false end) l1.
+
+Definition entry_equiv (a b : wentry) : bool :=
+  beq (we_gkey a, we_recv a, we_ghash a, we_resolved a, we_ts a, we_firing a, we_resalerts a)
+      (we_gkey b, we_recv b, we_ghash b, we_resolved b, we_ts b, we_firing b, we_resalerts b) &&
+  alist_equiv beq (we_data a) (we_data b).
+Definition mesh_equiv (a b : wmesh) : bool :=
+  beq (wm_exp a) (wm_exp b) &&
+  match wm_entry a, wm_entry b with
+  | Some x, Some y => entry_equiv x y
+  | None, None => true
+  | _, _ => false
+  end.
+Definition silence_equiv (a b : wsilence) : bool :=
+  beq (ws_id a, ws_matchers a, ws_starts a, ws_ends a, ws_updated a, ws_comments a, ws_created_by a, ws_comment a)
+      (ws_id b, ws_matchers b, ws_starts b, ws_ends b, ws_updated b, ws_comments b, ws_created_by b, ws_comment b) &&
+  beq (ws_msets a, ws_rmsets a) (ws_msets b, ws_rmsets b) &&
+  alist_equiv beq (ws_annotations a) (ws_annotations b).
+Definition meshsil_equiv (a b : wmeshsil) : bool :=
+  beq (ms_exp a) (ms_exp b) &&
+  match ms_sil a, ms_sil b with
+  | Some x, Some y => silence_equiv x y
+  | None, None => true
+  | _, _ => false
+  end.
+
+Fixpoint list_equiv {A} (eqv : A -> A -> bool) (l1 l2 : list A) : bool :=
+  match l1, l2 with
+  | [], [] => true
+  | x :: r1, y :: r2 => eqv x y && list_equiv eqv r1 r2
+  | _, _ => false
+  end.
+(* same records as sets (loaded states: a Go map on one side) *)
+Definition set_equiv {A} (eqv : A -> A -> bool) (l1 l2 : list A) : bool :=
+  Nat.eqb (length l1) (length l2) && forallb (fun x => existsb (eqv x) l2) l1.
+
+Definition codec_ok {A} (dec : list N -> res (list A)) (enc : list A -> list N) (eqv : A -> A -> bool)
+  (bytes : string) (recs : list A) (exact : bool) : bool :=
+  match dec (s2b bytes) with
+  | Ok l => list_equiv eqv l recs
+  | _ => false
+  end && (negb exact || bytes_eqb (enc recs) (s2b bytes)).
+
+Definition apply_mut (b : list N) (m : mut) : list N :=
+  match m with MPrefix n => take n b | MFlip p v => <[p := Z.to_N v]> b end.
+
+Definition mut_ok {A} (load : list N -> res (list (string * A))) (dec : list N -> res (list A)) (eqv : A -> A -> bool)
+  (b : list N) (mo : mut * lres A) : bool :=
+  match load (apply_mut b (fst mo)), snd mo with
+  | Err _, LdErr => true
+  | Ok st, LdOk l => set_equiv eqv (map snd st) l
+  | Ok st, LdPrefix j =>
+      match load b with
+      | Ok full => set_equiv eqv (map snd st) (take j (map snd full))
+      | _ => false
+      end
+  | _, _ => false
+  end.
+
+(* executable prefix_behaviour: a strict prefix decodes to an error or to a record-aligned prefix *)
+Definition prefix_ok {A} `{EqDecision A} (dec : list N -> res (list A)) (b : list N) (m : mut) : bool :=
+  match m with
+  | MFlip _ _ => true
+  | MPrefix n =>
+      match dec (take n b), dec b with
+      | Ok l, Ok all => beq l (take (length l) all)
+      | Err _, _ => true
+      | _, _ => false
+      end
+  end.
+
+(* the loaded state of crash images, for the loader class of CCrash: the real loader's state is classified as
+   old content / new content (old first) / error / other. lo, ln, same are computed once per case. *)
+Definition res_equiv {A} (eqv : A -> A -> bool) (x y : res (list (string * A))) : bool :=
+  match x, y with
+  | Ok a, Ok b => alist_equiv eqv a b
+  | _, _ => false
+  end.
+Definition load_class {A} (load : list N -> res (list (string * A))) (eqv : A -> A -> bool)
+  (old new : list N) : option (list N) -> ldclass :=
+  let lo := load old in
+  let ln := load new in
+  let same := res_equiv eqv ln lo in
+  let old_ok := match lo with Ok _ => true | _ => false end in
+  let new_ok := match ln with Ok _ => true | _ => false end in
+  fun img =>
+    let i := match img with Some b => b | None => [] end in
+    if bytes_eqb i old then (if old_ok then LOld else LErr)
+    else if bytes_eqb i new then (if new_ok then (if same then LOld else LNew) else LErr)
+    else match load i with
+         | Ok st => if res_equiv eqv (Ok st) lo then LOld else if res_equiv eqv (Ok st) ln then LNew else LOther
+         | _ => LErr
+         end.
+Definition model_class (store : nat) (old : option string) (new : string) : option (list N) -> ldclass :=
+  match store with
+  | O => load_class nflog_load mesh_equiv (old_bytes old) (s2b new)
+  | _ => load_class silence_load meshsil_equiv (old_bytes old) (s2b new)
+  end.
+
 Definition check_case (c : case) : bool :=
   match c with
-  | COps target tmp data recorded => beq recorded (snapshot_ops tmp target (s2b data))
-  | CCrash _ target old new ops pts =>
-      forallb (fun p => img_ok old new (model_image target old ops p) (p_img p)) pts
+  | COps target tmp data recorded => ops_eqb recorded (snapshot_ops tmp target (s2b data))
+  | CCrash store target old new ops pts =>
+      let cls := model_class store old new in
+      forallb (fun p => let m := model_image target old ops p in
+                        img_ok old new m (p_img p) && beq (cls m) (p_load p)) pts
+  | CCodecN bytes recs exact => codec_ok decode_nflog encode_nflog mesh_equiv bytes recs exact
+  | CCodecS bytes recs exact => codec_ok decode_silences encode_silences meshsil_equiv bytes recs exact
+  | CMutN bytes l => forallb (mut_ok nflog_load decode_nflog mesh_equiv (s2b bytes)) l
+  | CMutS bytes l => forallb (mut_ok silence_load decode_silences meshsil_equiv (s2b bytes)) l
   end.
 
 Definition prop_case (c : case) : bool :=
@@ -59,12 +210,31 @@ Definition prop_case (c : case) : bool :=
   | COps _ _ _ _ => true
   | CCrash _ target old new ops pts =>
       forallb (fun p => is_old_or_new old new (model_image target old ops p)) pts
+  | CCodecN bytes _ _ =>  (* round trip on what was decoded *)
+      match decode_nflog (s2b bytes) with
+      | Ok l => match decode_nflog (encode_nflog l) with Ok l' => beq l' l | _ => false end
+      | _ => true end
+  | CCodecS bytes _ _ =>
+      match decode_silences (s2b bytes) with
+      | Ok l => match decode_silences (encode_silences l) with Ok l' => beq l' l | _ => false end
+      | _ => true end
+  | CMutN bytes l => forallb (fun mo => prefix_ok decode_nflog (s2b bytes) (fst mo)) l
+  | CMutS bytes l => forallb (fun mo => prefix_ok decode_silences (s2b bytes) (fst mo)) l
   end.
 
-Inductive shown := SOps (l : list fsop) | SImgs (l : list (option nat)).
+Inductive shown :=
+| SOps (l : list fsop) | SImgs (l : list (option nat * ldclass))
+| SDecN (r : res (list wmesh)) | SDecS (r : res (list wmeshsil))
+| SMutN (l : list (res (list (string * wmesh)))) | SMutS (l : list (res (list (string * wmeshsil)))).
 Definition show_case (c : case) : shown :=
   match c with
   | COps target tmp data _ => SOps (snapshot_ops tmp target (s2b data))
-  | CCrash _ target old new ops pts =>
-      SImgs (map (fun p => match model_image target old ops p with Some b => Some (length b) | None => None end) pts)
+  | CCrash store target old new ops pts =>
+      let cls := model_class store old new in
+      SImgs (map (fun p => let m := model_image target old ops p in
+                           (match m with Some b => Some (length b) | None => None end, cls m)) pts)
+  | CCodecN bytes _ _ => SDecN (decode_nflog (s2b bytes))
+  | CCodecS bytes _ _ => SDecS (decode_silences (s2b bytes))
+  | CMutN bytes l => SMutN (map (fun mo => nflog_load (apply_mut (s2b bytes) (fst mo))) l)
+  | CMutS bytes l => SMutS (map (fun mo => silence_load (apply_mut (s2b bytes) (fst mo))) l)
   end.
